@@ -8,7 +8,7 @@ from .codecprops import *
 def check(v):
     c = campaign(v.tier)
     cross_ops = sorted(set("cross:" + tidu for x in c.cases for (tidu, _) in getattr(x, "cross", [])))
-    ops = ["ser", "feed"]
+    ops = ["ser", "feed", "sfeed"]
     run_codec_property(v, "C04", ops, oracle_c04,
                        rule_extra="Pairs: every chosen generated definition against its mutants (type name, field renamed, fields swapped, field type of the same size, copy kind, repr attribute, const value, const name, variant renamed, variants reordered) and built-in near-misses (sequence kind, array length, tuple arity, sum kind, element type, generic argument).")
     # the cross observations are compared here (their names depend on the pair)
